@@ -196,6 +196,15 @@ extern "C" {
     AWS_CATCH(-1)
   }
 
+  // number of frames on the machine's return stack (a public accessor: how a caller tells "the word I called has
+  // finished" from "the word I called has paused")
+  long aws_fm_depth(long h) {
+    AWS_TRY
+    auto fm = awsim::get<FM>(h, awsim::K_FM);
+    return (long)(fm->width == 32 ? fm->m32->current_recursion_depth() : fm->m64->current_recursion_depth());
+    AWS_CATCH(-1)
+  }
+
   long aws_fm_state(long h, char* out, long cap) {
     AWS_TRY
     auto fm = awsim::get<FM>(h, awsim::K_FM);
